@@ -67,7 +67,7 @@ def run(ctx):
             r = outcome(H.murmur3, data, seed)
             cases.append({"id": "murs%d.%d" % (k, n), "kind": "murmur", "data": B(data), "seed4": B((seed % 2 ** 32).to_bytes(4, "little")), "out": B(r[1].to_bytes(4, "little")) if r[0] == "ok" else []})
     # GCS encodings and membership
-    sizes = [0, 1, 2, 3, 10, 50] + ([200] if q else [200, 1000, 2000])
+    sizes = [0, 1, 2, 3, 10, 50] + ([200, 1000] if q else [200, 800, 1000, 2000])   # >= 16384 bits of Golomb codes from about 760 elements
     for i, n in enumerate(sizes):
         key = rb(16)
         items = [rb(rng.choice([0, 1, 20, 22, 25, 34, 67, 255, 256, 600]) if rng.random() < 0.3 else rng.randrange(0, 80)) for _ in range(n)]
@@ -76,7 +76,7 @@ def run(ctx):
         enc = outcome(CF.encode_gcs, key, items)
         dec = outcome(CF.decode_gcs, key, enc[1]) if enc[0] == "ok" else ("raise", [])
         hashes = [SipHash_2_4(key, it).hash().to_bytes(8, "little") for it in items]
-        if n <= 200:
+        if n <= 1000:
             cases.append({"id": "g%d" % i, "kind": "gcs", "hashes": [B(h) for h in hashes], "enc": B(enc[1]) if enc[0] == "ok" else [], "dec": list(dec[1]) if dec[0] == "ok" else [-1]})
             for it, h in list(zip(items, hashes))[:6]:
                 cases.append({"id": "gs%d.%d" % (i, len(cases)), "kind": "sip", "key": B(key), "msg": B(it), "out": B(h)})
@@ -106,7 +106,7 @@ def run(ctx):
                 break
             seen[v] = it
     # bloom filters
-    for i, (size, nf) in enumerate([(1, 1), (2, 3), (10, 5), (30, 50), (36000, 11)] + ([] if q else [(512, 20), (36000, 50), (7, 2)])):
+    for i, (size, nf) in enumerate([(1, 1), (2, 3), (10, 5), (30, 50), (36000, 11), (rng.randrange(601, 36000), rng.randrange(1, 51)), (4501, 3)] + ([] if q else [(512, 20), (36000, 50), (7, 2)])):
         tweak = rng.choice([0, 1, 0xFFFFFFFF, 0x045B386B, rng.randrange(2 ** 32)])
         bf = BloomFilter(size, nf, tweak)
         items = [rb(rng.choice([0, 1, 2, 3, 4, 20, 32, 33])) for _ in range(3)]
@@ -117,7 +117,13 @@ def run(ctx):
                 pos = H.murmur3(it, seed) % (size * 8)
                 if k < 4 or k == nf - 1:
                     cases.append({"id": "bp%d.%d.%d" % (i, len(cases), k), "kind": "bloompos", "data": B(it), "seed4": B((seed % 2 ** 32).to_bytes(4, "little")), "nbits": size * 8,
-                                  "pos": pos, "set": bf.bit_field[pos] == 1})
+                                  "pos": pos, "set": pos < len(bf.bit_field) and bf.bit_field[pos] == 1, "len": len(bf.bit_field)})
+        if size > 600:      # the large filters: lengths and the filterload header (the bytes themselves are decided for the small ones)
+            fb = outcome(bf.filter_bytes)
+            pl = outcome(lambda: bf.filterload().payload)
+            cases.append({"id": "bh%d" % i, "kind": "bloomhead", "size": size, "nbits": len(bf.bit_field), "nbytes": len(fb[1]) if fb[0] == "ok" else -1,
+                          "npayload": len(pl[1]) if pl[0] == "ok" else -1, "head": B(pl[1][:3]) if pl[0] == "ok" else [],
+                          "ones": sum(bf.bit_field), "ones_bytes": sum(bin(x).count("1") for x in fb[1]) if fb[0] == "ok" else -1})
         if size <= 600:
             fb = outcome(bf.filter_bytes)
             pl = outcome(lambda: bf.filterload().payload)
